@@ -91,10 +91,14 @@ func HarnessC09Propagate() {
 	zzPut(s, "xr-secrets", "xr-conn", srcState, zzXRUID, srcForeign, srcData)
 	dstState := zz.Choose("dst.state", zzStates)
 	var dstData map[string][]byte
-	if zz.Bool("dst.same") {
+	switch zz.Choose("dst.data", 3) {
+	case 0:
 		dstData = map[string][]byte{"user": []byte("admin"), "pass": []byte("hunter2")}
-	} else {
+	case 1:
 		dstData = map[string][]byte{"user": []byte("someone-else")}
+	default:
+		// a key the XR's secret has lost since the last copy
+		dstData = map[string][]byte{"user": []byte("admin"), "pass": []byte("hunter2"), "old": []byte("stale")}
 	}
 	zzPut(s, "team", "cm-conn", dstState, zzClaimUID, dstForeign, dstData)
 
